@@ -106,10 +106,12 @@ fn ref_trim<'a>(mut p: Parser<'a>, alts: &[&str], end: bool) -> (usize, Parser<'
 fn run(id: usize, branches: &[&[&str]], k: &dyn for<'a> Fn(Parser<'a>) -> (usize, Parser<'a>), r: &dyn for<'a> Fn(Parser<'a>) -> (usize, Parser<'a>)) {
     let mut evals = 0u64; let mut matched = 0u64; let mut first: Option<String> = None; let mut bad = 0u64;
     for s in inputs(branches) {
-        for (base, from_end) in [(0usize, false), (5, false), (0, true), (5, true)] {
+        for (base, from_end, exhausted) in [(0usize, false, false), (5, false, false), (0, true, false), (5, true, false), (0, false, true), (5, true, true)] {
             let p = if base == 0 { Parser::new(&s) } else { Parser::with_start_offset(&s, base) };
             // the parser's last mutation came from the other end: position-neutral, direction FromEnd
             let p = if from_end { p.skip_back(0) } else { p };
+            // a parser whose split protocol has handed out its last piece (remainder "", must stay exhausted)
+            let p = if exhausted { if from_end { p.rsplit('\u{1}').unwrap().1 } else { p.split('\u{1}').unwrap().1 } } else { p };
             let (kb, kp) = k(p);
             let (rb, rp) = r(p);
             evals += 1;
@@ -117,6 +119,7 @@ fn run(id: usize, branches: &[&[&str]], k: &dyn for<'a> Fn(Parser<'a>) -> (usize
             if !default_branch || rp.remainder().len() != s.len() { matched += 1; }
             let same = kb == rb && kp.remainder() == rp.remainder() && kp.start_offset() == rp.start_offset() && kp.end_offset() == rp.end_offset()
                 && kp.parse_direction() == rp.parse_direction() && kp == rp
+                && kp.split('\u{2}').is_ok() == rp.split('\u{2}').is_ok() && kp.rsplit('\u{2}').is_ok() == rp.rsplit('\u{2}').is_ok()
                 && (!default_branch || kp == p);
             if !same {
                 bad += 1;
@@ -256,6 +259,6 @@ def run(out, tier, seed):
                 out.fail("differs:%s:%s" % (p.method, "+".join(p.tags())), "parser_method!", "program %d: %s; %s | first: %s" % (pid, p.method, " , ".join(" | ".join(s for s, _ in b) for b in p.branches).replace("\n", "\\n"), f[5][:500]), "%d of %d evaluations differ" % (bad, ev), "the equivalent chain of Parser method calls on the rustc-decoded literals", "generated-program", cmd=b, source=src)
     out.add_counts("generated-programs", evals, "c18-programs", matched_programs, samples,
                    rule="one evaluation = one parser_method! invocation on one input/start-offset compared (branch taken, remainder, start_offset, end_offset, parse_direction, Parser equality; default branch: parser unchanged) with the reference chain of Parser::strip_prefix/strip_suffix/find_skip/rfind_skip calls over the same literal tokens in expression position; distinct_nontrivial = number of distinct generated programs in which at least one input matched a literal",
-                   exhaustive="every literal form (plain, each escape kind, \\u{..} of 1-6 digits and all UTF-8 lengths, line continuations followed by spaces/tab/newlines/NBSP/U+3000/end, raw strings with 0-2 hashes, multi-byte text, empty, concat! incl. nested) alone x 6 methods, prefix-of-each-other alternative sets, + seeded random programs up to %d (1-3 branches x 1-3 alternatives); inputs: all strings of <= 4 chars over <= 3 literal characters + 'z' and <= 3 concatenated literals, from Parser::new and with_start_offset(_, 5), each also after a position-neutral skip_back(0) (direction FromEnd)" % len(progs),
+                   exhaustive="every literal form (plain, each escape kind, \\u{..} of 1-6 digits and all UTF-8 lengths, line continuations followed by spaces/tab/newlines/NBSP/U+3000/end, raw strings with 0-2 hashes, multi-byte text, empty, concat! incl. nested) alone x 6 methods, prefix-of-each-other alternative sets, + seeded random programs up to %d (1-3 branches x 1-3 alternatives); inputs: all strings of <= 4 chars over <= 3 literal characters + 'z' and <= 3 concatenated literals, from Parser::new and with_start_offset(_, 5), each also after a position-neutral skip_back(0) (direction FromEnd) and after an exhausted split / rsplit (a following split must fail on both sides alike)" % len(progs),
                    hist=hist)
     out.counters["programs_generated"] = len(progs)
